@@ -127,12 +127,17 @@ def r18_2(ctx):
 
     def not_media_under_latch(term, meaning, *_):
         # the False edge of a boolean that is only true when latching is on (its definitions read latch_on_rtp): on it the
-        # packet is not RTP/RTCP, or latching is off; plus the inbound-TCP edge (the stream fixes the peer)
-        if term[0] == "var" and term[1] == "socket_is_inbound_tcp" and meaning is True:
+        # packet is not RTP/RTCP, or latching is off. (The inbound-TCP edge used to be accepted here as "the stream fixes
+        # the peer" - wrong: every accepted stream's read loop feeds the same IceConn, so a stranger's stream moved a
+        # committed latch. It now needs a latching-is-off / not-media edge like the port-0 case.)
+        if meaning is False and core.is_atomic_load(term, "latch_on_rtp"):
             return True
         if meaning is False and term[0] in ("var", "phi"):
             alts = body.var_def_terms(term[2]) if term[0] == "var" and len(term) > 2 else list(term[1]) if term[0] == "phi" else []
-            return any(mir.has(a, lambda x: core.is_atomic_load(x, "latch_on_rtp")) for a in alts)
+            more = []
+            for a in alts:
+                more += list(core.expand_vars(body, a, depth=2))
+            return any(mir.has(a, lambda x: core.is_atomic_load(x, "latch_on_rtp")) for a in alts + more)
         return False
     exc_latch_g = core.guard_edges(body, not_media_under_latch)
     n_exc = 0
@@ -149,8 +154,9 @@ def r18_2(ctx):
             n_exc += 1
             if not exc_latch_g or core.k1(body, [bi], exc_latch_g)[bi] is not None:
                 r.violate(RECEIVE, "write:remote_addr:bootstrap", body.where(bi, si),
-                          "while the remote address is unknown (port 0) ANY packet - RTCP, RTP with the wrong SSRC - sets the RTP destination even "
-                          "with latching on: the first-packet shortcut must leave RTP/RTCP to the latch rules")
+                          "while the remote address is unknown (port 0), or on an inbound TCP stream, ANY packet - RTCP, RTP with the wrong SSRC, "
+                          "after the latch has committed - sets the RTP destination even with latching on: the first-packet shortcut must leave "
+                          "RTP/RTCP to the latch rules")
             elif n_exc > 1:
                 r.violate(RECEIVE, site, body.where(bi, si), "more than one write relies on first-packet exception E18.a")
             else:
